@@ -1,0 +1,7 @@
+//go:build verif
+
+package bech32
+
+// VerifPolymod exposes the bech32 checksum remainder function to the
+// verification harness in /verif (build tag "verif" only).
+func VerifPolymod(values []int) int { return bech32Polymod(values) }
